@@ -84,6 +84,10 @@ func (c *Config) Merge(from interface{}, options ...Option) error {
 }
 
 func mergeConfig(opts *options, to, from *Config) Error {
+	// the zero value of Config is an empty config
+	if to.fields == nil {
+		to.fields = &fields{}
+	}
 	if err := mergeConfigDict(opts, to, from); err != nil {
 		return err
 	}
@@ -259,7 +263,9 @@ func normalize(opts *options, from interface{}) (*Config, Error) {
 
 	switch vFrom.Type() {
 	case tConfig:
-		return vFrom.Addr().Interface().(*Config), nil
+		// (a Config passed by value is not addressable: tryTConfig copies it)
+		v, _ := tryTConfig(vFrom)
+		return v.Addr().Interface().(*Config), nil
 	case tConfigMap:
 		return normalizeMap(opts, vFrom)
 	default:
